@@ -571,6 +571,59 @@ class Storm:
             c.close()
         self.quiesce(srv, expect_users=[], expect_conns=0, what="flood teardown")
 
+    # ---------------------------------------------------------------- W12 the second half of a two-step command
+    def w_idle(self, srv):
+        """PRIVMSG releases the state lock after the fan-out and takes it again to record the sender's activity (the
+        handler named in the property): while others keep the lock busy (OPER password checks), a sender that has been
+        idle for seconds sends one message; the receiver's WHOIS then shows an idle time counted from that message -
+        the command took effect as a whole or not at all"""
+        import threading
+        self.rounds += 1
+        pfx = self.uid("i")
+        al, bo = open_many(srv, 2, pfx + "u", password=self.password)
+        busy = open_many(srv, 4, pfx + "k", password=self.password)
+        an, bn = pfx + "u0", pfx + "u1"
+        time.sleep(4.3)   # alice is idle
+        stop = []
+
+        def hammer(c):
+            try:
+                while not stop:
+                    c.send_raw(b"OPER root not-the-password\r\n" * 12 + b"PING h\r\n")
+                    c.read_until(lambda m: m.verb == "PONG", 20.0)
+            except (wire.Closed, wire.Timeout, OSError):
+                pass
+        ths = [threading.Thread(target=hammer, args=(c,), daemon=True) for c in busy]
+        for t in ths:
+            t.start()
+        time.sleep(0.05)
+        bad = None
+        try:
+            t_send = time.monotonic()
+            al.send("PRIVMSG %s :after a long silence" % bn)
+            bo.read_until(lambda m: m.verb == "PRIVMSG" and m.params[-1:] == ["after a long silence"], 20.0)
+            al.ping("done", 20.0)        # alice's handler has finished the command (both halves)
+            bo.send("WHOIS " + an)
+            wl = bo.read_until(lambda m: m.verb == "318", 20.0)
+            elapsed = time.monotonic() - t_send
+            idle = [int(m.params[2]) for m in wl if m.verb == "317" and len(m.params) > 2 and m.params[2].isdigit()]
+            self.events += len(wl)
+            if idle and idle[0] > elapsed + 2.0:
+                bad = "WHOIS reports %d s idle for a user whose PRIVMSG was delivered %.1f s ago: the message went out but " \
+                      "the activity it should record did not (lock busy with OPER checks)" % (idle[0], elapsed)
+        except (wire.Closed, wire.Timeout):
+            raise
+        finally:
+            stop.append(1)
+            for t in ths:
+                t.join(25.0)
+        if bad:
+            self.bad("storm:half-done-command", bad)
+        self.classes.add(("idle", bool(bad)))
+        for c in [al, bo] + busy:
+            c.close()
+        self.quiesce(srv, expect_users=[], expect_conns=0, what="idle teardown")
+
     # ---------------------------------------------------------------- W11 one query, one state
     def w_query_atomic(self, srv, pairs, n):
         """connections flip between two nicknames a<i> / b<i> as fast as they can while observers ask ISON and USERHOST
@@ -998,6 +1051,8 @@ def worker(args):
                         st.w_limit(srv, r.choice([6, 10]), r.choice([1, 2, 3, 5]))
                     elif kind == "fifo":
                         st.w_order_full(srv, r.choice([3, 5, 12]), r.choice([30, 120]) if quick else r.choice([80, 400]))
+                    elif kind == "idle":
+                        st.w_idle(srv)
                     elif kind == "queries":
                         st.w_query_atomic(srv, 10, 2000)
                     elif kind == "backlog":
